@@ -12,7 +12,10 @@ garbage is installed as real files in the snapshot directory before the first tu
 garbage (GARBAGE: nothing in it parses) and partially corrupt snapshots (`_partial_sites`: a snapshot-shaped object in
 which one section the loader consumes - store.weights, gel.edges - is valid up to its k-th entry and corrupt there,
 k = 0..n, bare or embedded in a complete snapshot body; for gel.edges also a well-formed record in which ONE field other than the
-weight - attrs, updated_at, src, rel, id - holds a JSON value of the wrong kind, baseline in addition: that field at its default).  The fresh-boot world W2 starts with live store weights, W1
+weight - attrs, updated_at, src, rel, id - holds a JSON value of the wrong kind, baseline in addition: that field at its default; and a
+snapshot whose scalar header field version_etag - copied unparsed by the loader and parsed later by the apply stage - holds a value that is
+not integer text: text classes around the decimal-integer grammar incl. characters that are digits but not decimal digits, or a JSON value of
+the wrong kind; baselines in addition: the field absent / at a valid value).  The fresh-boot world W2 starts with live store weights, W1
 with an empty weight map, so a load that fails half way and has already touched the live world is visible in apply.jsonl.
 
 Exception alphabet = class x INSTANCE SHAPE (text argument / no arguments at all, i.e. a bare `raise X` / one non-text
@@ -524,6 +527,32 @@ _BAD_GEL_FIELD: Dict[str, Dict[str, Any]] = {
 _GEL_FIELD_QUICK = [("attrs", "null"), ("updated_at", "list")]
 
 
+# per-VALUE corruption of a scalar header field the loader copies WITHOUT parsing it: version_etag.  The loader stores str(value) in
+# state['version_etag']; the value is parsed later, outside the boot guard, by the mandatory apply stage (etag bump), so a foreign value
+# is a boot-load failure whose effect surfaces downstream.  Alphabet = the classes of JSON values around the grammar "decimal integer
+# text" that are NOT an integer under any reading (values that int() reads as a number - " 7 ", "+7", other scripts' decimal digits -
+# are numeric etags, not corruption, and are not enumerated): text classes x JSON values of the wrong kind.
+_BAD_ETAG: Dict[str, Any] = {
+    "text-letters": "not-a-number", "text-empty": "", "text-blank": " ", "text-sign-only": "-", "text-fraction": "1.5",
+    "text-exponent": "1e3", "text-hex": "0x10", "text-digit-not-decimal": "\u00b2", "text-digit-enclosed": "\u2460",
+    "text-digit-mixed": "1\u00b2", "text-digit-fraction": "\u00bd", "text-numeral-letter": "\u2167",
+    "text-nul": "7\x00", "bool": True, "fraction": 1.5, "list": [7], "object": {"etag": 7},
+}
+_ETAG_QUICK = ["text-letters", "text-empty", "text-digit-not-decimal", "text-digit-enclosed", "list"]
+_ETAG_DEFAULT = "7"
+
+
+def _etag_doc(shape: str, value: Any) -> Dict[str, Any]:
+    doc = _snapshot_doc(shape)
+    if value is _ABSENT:
+        doc.pop("version_etag", None)
+        if not doc:
+            doc = {"schema_version": "v1"}  # bare: a snapshot-shaped object without any etag
+    else:
+        doc["version_etag"] = value
+    return doc
+
+
 def _gel_section(edges: List[Dict[str, Any]]) -> Dict[str, Any]:
     return {"nodes": {n: {"id": n} for n in ("ep1", "ep2", "ep4")}, "edges": {e["id"]: e for e in edges},
             "meta": {"schema": "v1.1", "merges": [], "splits": [], "promotions": [], "concept_nodes_count": 0,
@@ -616,6 +645,13 @@ def _partial_sites(thorough: bool) -> List[str]:
                         "gel.edges", "%s,k=%d,%s" % (kind, k, shape), _snapshot_doc(shape, gel=_gel_section(lst)),
                         [("section-dropped", _snapshot_doc(shape, gel=_ABSENT)),
                          ("corrupt-entries-dropped", _snapshot_doc(shape, gel=_gel_section(_VALID_GEL_EDGES)))], fname))
+        # scalar header field version_etag: value class x shape (other picker rules: the quick kinds only)
+        for kind in (list(_BAD_ETAG) if full_alphabet else _ETAG_QUICK):
+            for shape in shapes:
+                out.append(_mk_partial(
+                    "version_etag", "%s,%s" % (kind, shape), _etag_doc(shape, _BAD_ETAG[kind]),
+                    [("corrupt-field-dropped", _etag_doc(shape, _ABSENT)),
+                     ("corrupt-field-at-its-default", _etag_doc(shape, _ETAG_DEFAULT))], fname))
         # per-field corruption: the corrupt record sits between the two valid ones (k = 1); thorough: every k
         if fname == PARTIAL_FNAME:
             good = _gel_edge("ep2", "ep4", 0.5)
@@ -1603,6 +1639,8 @@ def run(run: Run) -> None:
                                          if s.startswith("boot:partial:gel.edges@")}),
         "gel.edges field kinds (otherwise well-formed record)": sorted({s.split("@")[0].rsplit(".", 1)[1] + "-" + s.split("@")[1].split(",")[0]
                                                                         for s in PARTIAL_QUICK + extra_names if s.startswith("boot:partial:gel.edges.")}),
+        "version_etag value kinds": sorted({s.split("@")[1].split(",")[0] for s in PARTIAL_QUICK + extra_names
+                                            if s.startswith("boot:partial:version_etag@")}),
         "position_k": "0..%d valid entries before the corrupt one (store.weights), 0..%d (gel.edges)" % (
             len(_VALID_W), len(_VALID_GEL_EDGES)),
         "live_weights_at_boot": {"W1": 0, "W2": len(LIVE_W)}}
@@ -1620,7 +1658,10 @@ def run(run: Run) -> None:
                 "together x type(s); fault active in both turns; boot files: whole-file garbage kinds (singles and pairs) and "
                 "partially corrupt snapshots = section in {store.weights, gel.edges} x corruption kind x position k of the corrupt "
                 "entry x shape {bare, full} (singles), and for gel.edges also per-field corruption of an otherwise well-formed record "
-                "(field in {attrs, updated_at, src, rel, id} x JSON value of the wrong kind x k x shape; quick: attrs-null and updated_at-list at k=1, full); live-world corruption (singles, booted worlds, GEL maintenance off, hybrid rerank on) = "
+                "(field in {attrs, updated_at, src, rel, id} x JSON value of the wrong kind x k x shape; quick: attrs-null and updated_at-list at k=1, full), "
+                "and per-value corruption of the scalar header field version_etag (value class in {letters, empty, blank, sign only, fraction, exponent, hex, "
+                "digit characters that are not decimal digits, NUL-terminated, bool, float, list, object} x shape; quick: letters, empty, two non-decimal digit "
+                "characters, list); live-world corruption (singles, booted worlds, GEL maintenance off, hybrid rerank on) = "
                 "which edge of state['graph'] is corrupt x kind {weight not a number, record not a mapping} + edges / graph section not a mapping; "
                 "exception type = class x instance shape {text argument, no arguments, non-text argument, two arguments} "
                 "(shapes other than the first: on coverage.n_sequences_singles_with_every_instance_shape of the sequences); "
@@ -1678,6 +1719,9 @@ def run(run: Run) -> None:
     run.assume("partially corrupt snapshot: admissible behaviours are the failing unit idle at file, section or entry granularity "
                "(whole file ignored / corrupt section ignored / corrupt entries skipped, each as the implementation itself behaves on the cleaned file); "
                "keeping an arbitrary prefix of a section, or altering live state while the section is rejected, is none of them")
+    run.assume("a version_etag that is not integer text is corrupt; admissible behaviours: file ignored / the field treated as absent / the field read as a valid etag "
+               "(each as the implementation itself behaves on the cleaned file); values Python's int() reads as an integer (surrounding blanks, sign, "
+               "decimal digits of other scripts, very long digit strings) are numeric etags and are not enumerated")
     run.assume("a foreign JSON object that carries version_etag is a snapshot by definition and is not garbage (its well-formed sections may be loaded); "
                + ("running as root: chmod 000 does not prevent reading, the 'unreadable' kind degenerates to non-JSON bytes" if os.geteuid() == 0 else "unreadable = chmod 000"))
     run.assume("the T3 prompt trace (stages/t3/trace.emit_trace) cannot be switched on through run_turn (the dialogue bundle it receives has no cfg, "
